@@ -325,6 +325,63 @@ theorem scanInt_split (lo hi : Int) (hlo : lo ≤ 0) (hhi : 0 ≤ hi) (l r : Lis
   · exact scanInt_split_aux lo hi hlo hhi l _ [43] r' rfl (Or.inr (Or.inl rfl)) (by simpa using ht)
   · exact scanInt_split_aux lo hi hlo hhi l r [] r rfl (Or.inl ⟨rfl, h1, h2⟩) (by simpa using ht)
 
+/-! ### decimal output -/
+theorem digitChar_lt10 (d : Nat) (h : d < 10) : (Nat.digitChar d).toNat = 48 + d ∧ isDigit (Nat.digitChar d).toNat = true := by
+  have : d = 0 ∨ d = 1 ∨ d = 2 ∨ d = 3 ∨ d = 4 ∨ d = 5 ∨ d = 6 ∨ d = 7 ∨ d = 8 ∨ d = 9 := by omega
+  rcases this with rfl | rfl | rfl | rfl | rfl | rfl | rfl | rfl | rfl | rfl <;> decide
+
+theorem digitsVal_append (a b : List Byte) (acc : Nat) : digitsVal (a ++ b) acc = digitsVal b (digitsVal a acc) := by
+  induction a generalizing acc with
+  | nil => rfl
+  | cons x t ih => simp [digitsVal, ih]
+
+/-- the decimal digits of `n` (as `out << n` prints them) are digits and denote `n` -/
+theorem toDigits_spec (n : Nat) :
+    digitsVal ((Nat.toDigits 10 n).map Char.toNat) 0 = n ∧ ((Nat.toDigits 10 n).map Char.toNat).all isDigit = true ∧
+      (Nat.toDigits 10 n).map Char.toNat ≠ [] := by
+  induction n using Nat.strongRecOn with
+  | _ n ih =>
+    rw [Nat.toDigits_eq_if (by decide)]
+    split
+    · rename_i h
+      have := digitChar_lt10 n h
+      have h2 := this.2
+      rw [this.1] at h2
+      simp [digitsVal, this.1, h2]
+    · rename_i h
+      have hlt : n / 10 < n := Nat.div_lt_self (by omega) (by decide)
+      obtain ⟨h1, h2, h3⟩ := ih (n / 10) hlt
+      have hd := digitChar_lt10 (n % 10) (Nat.mod_lt n (by decide))
+      refine ⟨?_, ?_, by simp⟩
+      · simp only [List.map_append, List.map_cons, List.map_nil, digitsVal_append, h1, digitsVal, hd.1]
+        omega
+      · simp only [List.map_append, List.map_cons, List.map_nil, List.all_append, h2, List.all_cons, hd.2, List.all_nil]
+        rfl
+
+theorem splitSign_digits (ds : List Byte) (hne : ds ≠ []) (hds : ds.all isDigit = true) : splitSign ds = (false, ds) := by
+  match ds, hne, hds with
+  | c :: t, _, hds =>
+    have hall : isDigit c = true ∧ t.all isDigit = true := by simpa using hds
+    have hc := hall.1
+    have h45 : c ≠ 45 := by simp [isDigit] at hc; bomega
+    have h43 : c ≠ 43 := by simp [isDigit] at hc; bomega
+    unfold splitSign; split <;> simp_all
+
+/-- `out << v` for a `long`: a token of the integer grammar that denotes `v` -/
+theorem showInt_spec (v : Int) : isInteger (showInt v) = true ∧ denoteInteger (showInt v) = v := by
+  obtain ⟨h1, h2, h3⟩ := toDigits_spec v.natAbs
+  unfold showInt
+  by_cases hv : v < 0
+  · simp only [hv, if_true]
+    refine ⟨isInteger_signed [45] _ (Or.inr rfl) h3 h2, ?_⟩
+    simp only [denoteInteger, splitSign, h1, if_true]
+    omega
+  · simp only [hv, if_false]
+    refine ⟨isInteger_unsigned _ h3 h2, ?_⟩
+    simp only [denoteInteger, splitSign_digits _ h3 h2, h1]
+    simp; omega
+
+
 /-- where the stream may legitimately rest after a value: at its end or in front of a delimiter -/
 def AtDelimOrEnd (right : List Byte) : Prop := right = [] ∨ ∃ d t, right = d :: t ∧ isDelim attrDelims d = true
 
@@ -405,5 +462,259 @@ theorem cri_left (s : IStream) (e : Sev) (hb : s.bad = false) :
             rcases List.mem_append.mp hb with hb | hb
             · exact hsplit b hb
             · exact hm2 b hb
+
+/-! ### enumeration-like kinds -/
+theorem wordLoop_stop (p : Byte → Bool) (str : List Byte) (c : Byte) (l r : List Byte) (hc : p c = false) :
+    wordLoop p str c l r = (str, c, l, r, false) := by
+  cases r <;> simp [wordLoop, hc]
+
+theorem wordLoop_go (p : Byte → Bool) (str : List Byte) (c : Byte) (l r : List Byte) (hc : p c = true) :
+    ∃ w rest, r = w ++ rest ∧ w.all p = true ∧
+      ((rest = [] ∧ ∃ c', p c' = true ∧ wordLoop p str c l r = ((c :: w).reverse ++ str, c', w.reverse ++ l, [], true)) ∨
+       (∃ x u, rest = x :: u ∧ p x = false ∧ wordLoop p str c l r = ((c :: w).reverse ++ str, x, x :: (w.reverse ++ l), u, false))) := by
+  induction r generalizing c str l with
+  | nil => exact ⟨[], [], rfl, rfl, Or.inl ⟨rfl, c, hc, by simp [wordLoop, hc]⟩⟩
+  | cons x t ih =>
+    by_cases hx : p x = true
+    · obtain ⟨w, rest, h1, h2, h3⟩ := ih (c :: str) x (x :: l) hx
+      refine ⟨x :: w, rest, by simp [h1], by simp [hx, h2], ?_⟩
+      rcases h3 with ⟨hr, c', hc', hs⟩ | ⟨y, u, hr, hy, hs⟩
+      · exact Or.inl ⟨hr, c', hc', by simp [wordLoop, hc, hs]⟩
+      · exact Or.inr ⟨y, u, hr, hy, by simp [wordLoop, hc, hs]⟩
+    · have hx' : p x = false := by simpa using hx
+      refine ⟨[], x :: t, rfl, rfl, Or.inr ⟨x, t, rfl, hx', ?_⟩⟩
+      simp [wordLoop, hc, wordLoop_stop p _ x _ t hx']
+
+theorem getInto_good (x : Byte) (l : List Byte) (c : Byte) (t : List Byte) (sk : Bool) :
+    getInto x { left := l, right := c :: t, eof := false, fail := false, bad := false, skipws := sk } =
+      (c, { left := c :: l, right := t, eof := false, fail := false, bad := false, skipws := sk }) := by
+  simp [getInto, IStream.get, IStream.sentry, IStream.good]
+
+theorem getInto_end (x : Byte) (l : List Byte) (sk : Bool) :
+    getInto x { left := l, right := [], eof := false, fail := false, bad := false, skipws := sk } =
+      (x, { left := l, right := [], eof := true, fail := true, bad := false, skipws := sk }) := by
+  simp [getInto, IStream.get, IStream.sentry, IStream.good]
+
+theorem pw_not_dot : pw 46 = false := by decide
+
+theorem warnIf_true_err (e : Sev) : ¬ NoErr (e.warnIf true) := by
+  simp [Sev.warnIf, greater_warning_err]
+
+/-- severities `SDAI_Enum::STEPread` may turn into "no error" for an OPTIONAL attribute -/
+def Quiet (e : Sev) : Prop := e = .null ∨ e = .usermsg ∨ e = .incomplete
+
+theorem NoErr.quiet {e : Sev} (h : NoErr e) : Quiet e := by
+  rcases h with h | h <;> simp [Quiet, h]
+
+theorem null_greater_warning : Sev.null.greater .warning = .warning := rfl
+theorem null_greater_incomplete : Sev.null.greater .incomplete = .incomplete := rfl
+theorem warning_warnIf (b : Bool) : Sev.warning.warnIf b = .warning := by cases b <;> rfl
+theorem null_warnIf_true : Sev.null.warnIf true = .warning := rfl
+theorem null_warnIf_false : Sev.null.warnIf false = .null := rfl
+theorem not_quiet_warning : ¬ Quiet Sev.warning := by simp [Quiet]
+theorem warnIf_true_not_quiet (b : Bool) : ¬ Quiet ((Sev.null.warnIf b).warnIf true) := by
+  cases b <;> simp [Quiet, Sev.warnIf, Sev.greater, Sev.toInt]
+
+theorem alpha_pw {c : Byte} (h : (isAlpha c || c == 95) = true) : pw c = true := by
+  simp [pw, isAlnum] at *
+  rcases h with h | h
+  · simp [h]
+  · simp [h]
+
+theorem putback_good (c : Byte) (l r : List Byte) (sk : Bool) :
+    IStream.putback c { left := c :: l, right := r, eof := false, fail := false, bad := false, skipws := sk } =
+      { left := l, right := c :: r, eof := false, fail := false, bad := false, skipws := sk } := by
+  simp [IStream.putback, IStream.sentry, IStream.good]
+
+/-- `enumWord` = the loop started at the current character (the "look for UPPER" step is subsumed by the loop) -/
+theorem enumWord_eq (c1 : Byte) (l t1 : List Byte) (sk : Bool) (hp : pw c1 = true) :
+    enumWord c1 { left := c1 :: l, right := t1, eof := false, fail := false, bad := false, skipws := sk } =
+      (let q := wordLoop pw [] c1 (c1 :: l) t1
+       let s5 : IStream := { left := q.2.2.1, right := q.2.2.2.1, eof := q.2.2.2.2, fail := q.2.2.2.2, bad := false, skipws := sk }
+       (q.1.reverse, q.2.1, if s5.good && q.2.1 != 46 then s5.putback q.2.1 else s5)) := by
+  by_cases ha : (isAlpha c1 || c1 == 95) = true
+  · cases t1 with
+    | nil => simp [enumWord, IStream.good, ha, getInto_end, runWord, wordLoop, hp]
+    | cons x t1' =>
+      simp only [enumWord, IStream.good, ha, getInto_good, runWord]
+      simp [wordLoop, hp]
+  · have ha' : (isAlpha c1 || c1 == 95) = false := by simpa using ha
+    simp [enumWord, IStream.good, ha', runWord]
+
+/-- what `enumWord` does on a good stream whose last consumed character is the current one: the word is the longest
+    run of word characters starting at the current character -/
+theorem enumWord_spec (c1 : Byte) (l t1 : List Byte) (sk : Bool) :
+    ∃ w rest, c1 :: t1 = w ++ rest ∧ w.all pw = true ∧
+      ((w = [] ∧ pw c1 = false ∧ ∃ c3 s6, enumWord c1 { left := c1 :: l, right := t1, eof := false, fail := false, bad := false, skipws := sk } = ([], c3, s6)) ∨
+       (w ≠ [] ∧ rest = [] ∧ ∃ c3 s6, pw c3 = true ∧
+          enumWord c1 { left := c1 :: l, right := t1, eof := false, fail := false, bad := false, skipws := sk } = (w, c3, s6)) ∨
+       (w ≠ [] ∧ ∃ u, rest = 46 :: u ∧
+          enumWord c1 { left := c1 :: l, right := t1, eof := false, fail := false, bad := false, skipws := sk } =
+            (w, 46, { left := 46 :: (w.reverse ++ l), right := u, eof := false, fail := false, bad := false, skipws := sk })) ∨
+       (w ≠ [] ∧ ∃ x u, rest = x :: u ∧ x ≠ 46 ∧ pw x = false ∧
+          enumWord c1 { left := c1 :: l, right := t1, eof := false, fail := false, bad := false, skipws := sk } =
+            (w, x, { left := w.reverse ++ l, right := x :: u, eof := false, fail := false, bad := false, skipws := sk }))) := by
+  by_cases hp : pw c1 = true
+  · -- the word starts at c1
+    obtain ⟨w, rest, h1, h2, h3⟩ := wordLoop_go pw [] c1 (c1 :: l) t1 hp
+    refine ⟨c1 :: w, rest, by simp [h1], by simp [hp, h2], Or.inr ?_⟩
+    rw [enumWord_eq c1 l t1 sk hp]
+    rcases h3 with ⟨hr, c', hc', hs⟩ | ⟨x, u, hr, hx, hs⟩
+    · refine Or.inl ⟨by simp, hr, c',
+        { left := w.reverse ++ c1 :: l, right := [], eof := true, fail := true, bad := false, skipws := sk }, hc', ?_⟩
+      simp [IStream.good, hs]
+    · by_cases hx46 : x = 46
+      · subst hx46
+        refine Or.inr (Or.inl ⟨by simp, u, hr, ?_⟩)
+        simp [IStream.good, hs]
+      · refine Or.inr (Or.inr ⟨by simp, x, u, hr, hx46, hx, ?_⟩)
+        simp [IStream.good, hs, hx46, putback_good]
+  · have hp' : pw c1 = false := by simpa using hp
+    have ha' : (isAlpha c1 || c1 == 95) = false := by
+      cases h : (isAlpha c1 || c1 == 95)
+      · rfl
+      · rw [alpha_pw h] at hp'; cases hp'
+    refine ⟨[], c1 :: t1, rfl, rfl, Or.inl ⟨rfl, hp', ?_⟩⟩
+    simp only [enumWord, IStream.good, ha', runWord]
+    simp [wordLoop_stop pw [] c1 _ t1 hp']
+
+theorem enumFinish_noerr (cfg : LexCfg) (k : EnumKind) (vd0 : Bool) (str : List Byte) (c3 : Byte)
+    (hne : Quiet (enumFinish cfg k true vd0 str c3 .null).2) :
+    c3 = 46 ∧ vd0 = false ∧ ∃ i, findName k.table (str.map toUpper) = some i ∧
+      (cfg.logicalRejectsUnset = true → k.isUnsetIdx i = false) ∧ enumFinish cfg k true vd0 str c3 .null = (some i, .null) := by
+  unfold enumFinish at hne ⊢
+  by_cases h46 : c3 = 46
+  · subst h46
+    cases vd0 with
+    | true =>
+      exfalso
+      simp only [beq_self_eq_true, if_true, Bool.not_true, Bool.not_false] at hne
+      exact warnIf_true_not_quiet _ hne
+    | false =>
+      cases hf : findName k.table (str.map toUpper) with
+      | none => exfalso; simp [hf, null_warnIf_true, warning_warnIf, not_quiet_warning] at hne
+      | some i =>
+        by_cases hu : (cfg.logicalRejectsUnset && k.isUnsetIdx i) = true
+        · exfalso; simp [hf, hu, null_warnIf_true, warning_warnIf, not_quiet_warning] at hne
+        · refine ⟨rfl, rfl, i, rfl, ?_, ?_⟩
+          · intro hcfg; simpa [hcfg] using hu
+          · simp [hu, Sev.warnIf]
+  · exfalso
+    have : (c3 == 46) = false := by simpa using h46
+    simp only [this, Bool.false_eq_true, if_false, if_true, Bool.not_false] at hne
+    exact warnIf_true_not_quiet _ hne
+
+/-- `ReadEnum` (delimiters required) flags no error only for `.` word `.` with the word in the table -/
+theorem readEnum_noerr (cfg : LexCfg) (k : EnumKind) (l : List Byte) (c : Byte) (t : List Byte) (sk : Bool)
+    (hc : isSpace c = false) (hc44 : c ≠ 44) (hc41 : c ≠ 41)
+    (hne : Quiet (readEnum cfg k true { left := l, right := c :: t, eof := false, fail := false, bad := false, skipws := sk } .null).2.2) :
+    ∃ name rest i, c :: t = 46 :: (name ++ 46 :: rest) ∧ name ≠ [] ∧ name.all pw = true ∧
+      findName k.table (name.map toUpper) = some i ∧ (cfg.logicalRejectsUnset = true → k.isUnsetIdx i = false) ∧
+      readEnum cfg k true { left := l, right := c :: t, eof := false, fail := false, bad := false, skipws := sk } .null =
+        (some i, { left := 46 :: (name.reverse ++ 46 :: l), right := rest, eof := false, fail := false, bad := false, skipws := sk }, .null) := by
+  simp only [readEnum, ws_good0 _ _ _ _ hc, IStream.good, Bool.not_false, Bool.and_self, Bool.not_true, Bool.false_eq_true, if_false,
+    getInto_good] at hne ⊢
+  by_cases h46 : c = 46
+  · subst h46
+    simp only [beq_self_eq_true, Bool.true_or, if_true] at hne ⊢
+    cases t with
+    | nil =>
+      exfalso
+      simp [getInto_end, enumWord, IStream.good, runWord, null_greater_warning, not_quiet_warning] at hne
+    | cons c1 t1 =>
+      simp only [getInto_good] at hne ⊢
+      obtain ⟨w, rest, h1, h2, h3⟩ := enumWord_spec c1 (46 :: l) t1 sk
+      rcases h3 with ⟨hw, _, c3, s6, he⟩ | ⟨hw, hr, c3, s6, hc3, he⟩ | ⟨hw, u, hr, he⟩ | ⟨hw, x, u, hr, hx46, hx, he⟩
+      · exfalso
+        simp [he, null_greater_warning, not_quiet_warning] at hne
+      · exfalso
+        have hwne : w.isEmpty = false := by cases w <;> simp_all
+        simp only [he, hwne, Bool.not_false, if_true] at hne
+        have := (enumFinish_noerr cfg k false w c3 hne).1
+        subst this
+        exact absurd hc3 (by decide)
+      · have hwne : w.isEmpty = false := by cases w <;> simp_all
+        simp only [he, hwne, Bool.not_false, if_true] at hne ⊢
+        obtain ⟨_, _, i, hf, hu, hfin⟩ := enumFinish_noerr cfg k false w 46 hne
+        refine ⟨w, u, i, ?_, hw, h2, hf, hu, ?_⟩
+        · rw [h1, hr]
+        · rw [hfin]
+      · exfalso
+        have hwne : w.isEmpty = false := by cases w <;> simp_all
+        simp only [he, hwne, Bool.not_false, if_true] at hne
+        exact hx46 (enumFinish_noerr cfg k false w x hne).1
+  · exfalso
+    have h46' : (c == 46) = false := by simpa using h46
+    simp only [h46', Bool.false_or, Bool.false_eq_true, if_false] at hne
+    by_cases ha : isAlpha c = true
+    · simp only [ha, if_true] at hne
+      obtain ⟨w, rest, h1, h2, h3⟩ := enumWord_spec c l t sk
+      rcases h3 with ⟨hw, hpc, c3, s6, he⟩ | ⟨hw, hr, c3, s6, hc3, he⟩ | ⟨hw, u, hr, he⟩ | ⟨hw, x, u, hr, hx46, hx, he⟩
+      · have : pw c = true := by simp [pw, isAlnum, ha]
+        rw [this] at hpc; cases hpc
+      · have hwne : w.isEmpty = false := by cases w <;> simp_all
+        simp only [he, hwne, Bool.not_false, if_true] at hne
+        have := (enumFinish_noerr cfg k true w c3 hne).2.1
+        cases this
+      · have hwne : w.isEmpty = false := by cases w <;> simp_all
+        simp only [he, hwne, Bool.not_false, if_true] at hne
+        have := (enumFinish_noerr cfg k true w 46 hne).2.1
+        cases this
+      · have hwne : w.isEmpty = false := by cases w <;> simp_all
+        simp only [he, hwne, Bool.not_false, if_true] at hne
+        have := (enumFinish_noerr cfg k true w x hne).2.1
+        cases this
+    · have ha' : isAlpha c = false := by simpa using ha
+      have hcd : (c == 44 || c == 41) = false := by simp [hc44, hc41]
+      simp only [ha', Bool.false_eq_true, if_false, hcd, null_greater_warning] at hne
+      exact not_quiet_warning hne
+
+/-- the shape of `attrRead` for the three enumeration-like kinds -/
+def EnumLike (k : Kind) : Prop := k = .boolean ∨ k = .logical ∨ ∃ items, k = .enumeration items
+
+theorem attrRead_dollar {F} (ops : FloatOps F) (cfg : LexCfg) (lookup : Int → RefLookup) (k : Kind) (nullable : Bool)
+    (sp1 t : List Byte) (h2 : sp1.all isSpace = true) :
+    attrRead ops cfg lookup k nullable (IStream.ofBytes (sp1 ++ 36 :: t)) =
+      .ok ⟨if nullable then (if cfg.dollarKeepsError then (checkRemainingInput (some attrDelims) { left := 36 :: sp1.reverse, right := t } .null).2 else .null) else .incomplete,
+           .unset, (checkRemainingInput (some attrDelims) { left := 36 :: sp1.reverse, right := t } .null).1⟩ := by
+  have hpre : (IStream.ofBytes (sp1 ++ 36 :: t)).ws = { left := sp1.reverse, right := 36 :: t } := by
+    simpa [IStream.ofBytes] using ws_good [] sp1 36 t true h2 (by decide)
+  simp only [attrRead, hpre, peekC_good, ignore1_good]
+  try simp
+
+theorem attrRead_missing {F} (ops : FloatOps F) (cfg : LexCfg) (lookup : Int → RefLookup) (k : Kind) (nullable : Bool)
+    (sp1 t : List Byte) (c : Byte) (h2 : sp1.all isSpace = true) (hc : c = 44 ∨ c = 41) :
+    attrRead ops cfg lookup k nullable (IStream.ofBytes (sp1 ++ c :: t)) =
+      .ok ⟨if nullable then .null else .incomplete, .unset, { left := sp1.reverse, right := c :: t }⟩ := by
+  have hcs : isSpace c = false := by rcases hc with rfl | rfl <;> decide
+  have hpre : (IStream.ofBytes (sp1 ++ c :: t)).ws = { left := sp1.reverse, right := c :: t } := by
+    simpa [IStream.ofBytes] using ws_good [] sp1 c t true h2 hcs
+  have hcond : (c == 36 || c == 44 || c == 41) = true := by rcases hc with rfl | rfl <;> decide
+  have h36 : (c == 36) = false := by rcases hc with rfl | rfl <;> decide
+  simp only [attrRead, hpre, peekC_good, hcond, if_true]
+  simp [h36]
+
+theorem attrRead_enumlike {F} (ops : FloatOps F) (cfg : LexCfg) (lookup : Int → RefLookup) (k : Kind) (hk : EnumLike k)
+    (nullable : Bool) (sp1 t : List Byte) (c : Byte) (h2 : sp1.all isSpace = true) (hc : isSpace c = false)
+    (hcond : (c == 36 || c == 44 || c == 41) = false) :
+    attrRead ops cfg lookup k nullable (IStream.ofBytes (sp1 ++ c :: t)) =
+      (let q := enumRead cfg k.enumKind nullable { left := sp1.reverse, right := c :: t } .null
+       let q2 := checkRemainingInput (some attrDelims) q.2.1 q.2.2
+       .ok ⟨q2.2, enumValue k.enumKind q.1, q2.1⟩) := by
+  have hpre : (IStream.ofBytes (sp1 ++ c :: t)).ws = { left := sp1.reverse, right := c :: t } := by
+    simpa [IStream.ofBytes] using ws_good [] sp1 c t true h2 hc
+  rcases hk with rfl | rfl | ⟨items, rfl⟩ <;> simp only [attrRead, hpre, peekC_good, hcond] <;> rfl
+
+/-- `CheckRemainingInput` never lowers the severity (any stream state) -/
+theorem cri_mono (s : IStream) (e : Sev) :
+    (checkRemainingInput (some attrDelims) s e).2 = e ∨ ¬ NoErr (checkRemainingInput (some attrDelims) s e).2 := by
+  by_cases hb : s.bad = false
+  · exact (cri_char s e hb).1
+  · have hb' : s.bad = true := by simpa using hb
+    by_cases he : s.eof = true
+    · left; simp [checkRemainingInput, he]
+    · have he' : s.eof = false := by simpa using he
+      right; simp [checkRemainingInput, he', hb', greater_inputError_err]
+
 
 end StepModel.P21.Lemmas
